@@ -610,3 +610,125 @@ class Assign(Contract):
         return out
 
     calls = {'vfps::PhaseSpace::swap': Use(Swap())}
+
+
+# =========================================================================== text start distribution (PhaseSpaceFactory)
+class IStream:
+    """std::istream as two sticky ghost flags (fail, eof).  Formatted extraction `is >> x`:
+    already failed: nothing happens, x is NOT modified; sentry fails (end of input while skipping white space): fail and
+    eof set, x NOT modified; parse error: x = 0, fail set (C++11); success: x = some value, eof may become set."""
+    FAIL, EOF = 'ghost.is.fail', 'ghost.is.eof'
+
+    @staticmethod
+    def flags(st):
+        for p in (IStream.FAIL, IStream.EOF):
+            if p not in st.scal:
+                st.scal[p] = BoolV(z3.Bool(p))
+        return st.scal[IStream.FAIL].t, st.scal[IStream.EOF].t
+
+    @staticmethod
+    def extract(ex, n, st, objn, argn, this_override=None):
+        from vf.state import State
+        from vf.vcg import LVar
+        # the stream operand may itself be `is >> a` (chained): evaluate it first
+        inner = objn
+        while inner.get('kind') in ('ImplicitCastExpr', 'ParenExpr'):
+            inner = inner['inner'][0]
+        if inner.get('kind') == 'CXXOperatorCallExpr':
+            ex.ev(inner, st)
+        fail, eof = IStream.flags(st)
+        l = ex.lv(argn[0], st)
+        if not isinstance(l, LVar):
+            raise ExtractionError(f'{ex.unit}: stream extraction into something that is not a local variable (line {ex.curline})')
+        ct = parse_type(argn[0]['type'])
+        sentry_ok, parse_ok = State.fresh('sentry_ok', z3.BoolSort()), State.fresh('parse_ok', z3.BoolSort())
+        got = State.fresh('extracted', z3.RealSort() if ct.kind == 'float' else z3.IntSort())
+        attempted = And(Not(fail), sentry_ok)
+        newval = If(parse_ok, got, 0)
+        old = st.env.get(l.vid)
+        oldinit = st.scal.get(f'init:{l.vid}')
+        if old is None:
+            cur = RealV(newval, ct) if ct.kind == 'float' else IntV(newval, ct)
+            st.scal[f'init:{l.vid}'] = BoolV(attempted)
+        else:
+            cur = RealV(If(attempted, newval, old.t), ct) if ct.kind == 'float' else IntV(If(attempted, newval, old.t), ct)
+            if oldinit is not None:
+                st.scal[f'init:{l.vid}'] = BoolV(Or(oldinit.t, attempted))
+        if ct.kind == 'int':
+            st.assume(range_fact(got, ct))
+        st.env[l.vid] = cur
+        ex.logw(('v', l.vid))
+        ex.logw(('s', f'init:{l.vid}'))
+        neweof = State.fresh('eof_after', z3.BoolSort())
+        st.scal[IStream.FAIL] = BoolV(Or(fail, Not(sentry_ok), Not(parse_ok)))
+        st.scal[IStream.EOF] = BoolV(Or(eof, And(Not(fail), Or(Not(sentry_ok), neweof))))
+        ex.logw(('s', IStream.FAIL)); ex.logw(('s', IStream.EOF))
+        return Opaque('istream')
+
+    @staticmethod
+    def good(ex, n, st, objn, argn, this_override=None):
+        fail, eof = IStream.flags(st)
+        return BoolV(And(Not(fail), Not(eof)))
+
+    @staticmethod
+    def as_bool(ex, n, st, objn, argn, this_override=None):
+        if objn is not None:
+            inner = objn
+            while inner.get('kind') in ('ImplicitCastExpr', 'ParenExpr', 'MaterializeTemporaryExpr'):
+                inner = inner['inner'][0]
+            if inner.get('kind') == 'CXXOperatorCallExpr':
+                ex.ev(inner, st)
+        fail, eof = IStream.flags(st)
+        return BoolV(Not(fail))
+
+    @staticmethod
+    def failed(ex, n, st, objn, argn, this_override=None):
+        fail, eof = IStream.flags(st)
+        return BoolV(fail)
+
+
+class MakePSFromTXTLoop(Contract):
+    """the particle loop of makePSFromTXT (text start distribution, C17): for EVERY content of the file — any number of
+    values, malformed text, a trailing newline, particles anywhere — no value is used that was not read, and the cell
+    that is incremented lies inside the grid"""
+    name = 'vfps::makePSFromTXT'
+    tu = 'src/PS/PhaseSpaceFactory.cpp'
+    params = ['fname', 'ps_size', 'qmin', 'qmax', 'pmin', 'pmax', 'oclh', 'beam_charge', 'beam_current', 'qscale', 'pscale']
+    tags = {'C17'}
+    slice_stmt = ('WhileStmt', 0)
+    aux_tus = [('src/PS/PhaseSpace.cpp', 'vfps::')]
+    PSF_RUNS = [['txt', 16, nl_, np_, o_] for nl_ in (0, 1) for np_ in (1, 5) for o_ in (0, 1)]
+
+    def replay(self, o, model, pid):
+        return {'harness': 'psf_replay', 'runs': self.PSF_RUNS}
+
+    def slice_setup(self, ex, st):
+        cx = Ctx(ex, st, st, ex.args0)
+        ps = ex.args0.get('ps')
+        if not isinstance(ps, ObjRef):
+            raise ExtractionError('makePSFromTXT: local "ps" (the phase space being filled) not found before the loop')
+        self.psname = ps.name
+        # PhaseSpace::setSize(ps_size, 1) and the constructor ran before the loop: one bunch on a ps_size^2 grid
+        nx, ny, nb = ps_globals(cx)
+        st.assume(And(PS_static(cx), declare_ps(cx, ps.name), nb == 1, nx == ex.args0['ps_size'].t))
+
+    def requires(self, cx):
+        return [('size', And(cx.a('ps_size') >= 2, cx.a('ps_size') < 65536))]
+
+    def assigns(self, cx):
+        return [('s', 'ghost.*'), ('s', 'init:*'), ('r', getattr(self, 'psname', 'arg:ps') + '._data')]
+
+    @property
+    def calls(self):
+        noop = lambda ex, n, st, objn, argn, this_override=None: VoidV()
+        return {'operator>>': IStream.extract, 'good': IStream.good, 'operator bool': IStream.as_bool, 'fail': IStream.failed,
+                'operator!': lambda ex, n, st, objn, argn, this_override=None: BoolV(Not(IStream.as_bool(ex, n, st, objn, argn).t)),
+                'close': noop}
+
+    def ensures(self, cx):
+        return [('shape_kept', {'C17'}, cx.len(self.psname + '._data') == cx.old.len(self.psname + '._data'))]
+
+    @property
+    def loops(self):
+        l = LoopSpec(inv=lambda cx: [('shape', cx.len(self.psname + '._data') == cx.old.len(self.psname + '._data'))])
+        return {'while#0': l}
